@@ -24,6 +24,7 @@ type Config struct {
 	WaivePanics   []string
 	QueryTimeout  int
 	AllowLeak     bool
+	IntMode       bool // integer-with-wrap solver encoding (constant multipliers/divisors only)
 	Params        map[string]int
 }
 
